@@ -91,6 +91,11 @@ type FloodConfig struct {
 	// Commands with timestamps outside +/- this window are rejected.
 	// Default is 5 minutes.
 	TimestampWindow time.Duration
+
+	// MaxHops is the maximum number of hops a route advertisement may travel
+	// from its origin (routing.max_hops). An advertisement that arrives over a
+	// longer path is neither stored nor forwarded. Zero means no limit.
+	MaxHops int
 }
 
 // DefaultFloodConfig returns sensible defaults.
@@ -194,6 +199,23 @@ func (f *Flooder) HandleRouteAdvertise(
 	encPath *protocol.EncryptedData,
 	seenBy []identity.AgentID,
 ) bool {
+	// Enforce the hop limit. The plaintext path lists every agent the
+	// advertisement has passed, origin included, so its length is our distance
+	// from the origin along the way this copy took. This is checked before the
+	// seen cache so that a copy that came the long way round does not shadow a
+	// later copy of the same advertisement that is within the limit.
+	if f.cfg.MaxHops > 0 && encPath != nil && !encPath.Encrypted {
+		if hops, err := protocol.DecodePath(encPath.Data); err == nil && len(hops) > f.cfg.MaxHops {
+			f.logger.Debug("route advertisement beyond hop limit dropped",
+				"origin", originAgent.ShortString(),
+				"sequence", sequence,
+				"from_peer", fromPeer.ShortString(),
+				"hops", len(hops),
+				"max_hops", f.cfg.MaxHops)
+			return false
+		}
+	}
+
 	key := AdvertisementKey{
 		OriginAgent: originAgent,
 		Sequence:    sequence,
@@ -429,6 +451,9 @@ func (f *Flooder) floodAdvertisementEncrypted(
 		newPath := make([]identity.AgentID, len(existingPath)+1)
 		newPath[0] = f.localID
 		copy(newPath[1:], existingPath)
+		if f.cfg.MaxHops > 0 && len(newPath) > f.cfg.MaxHops {
+			return // the next hop would be beyond the hop limit
+		}
 		fwdEncPath = &protocol.EncryptedData{
 			Encrypted: false,
 			Data:      protocol.EncodePath(newPath),
